@@ -87,12 +87,29 @@ def splits_of(data, how, rng, marks=()):
     return out
 
 
-BEHS = ["", "f=r1", "u=3,0,all", "l=s1", "u=1", "f=s0", "ur=0:r1", "l=no", "f=no"]
+# second build of the daemon with the pool's ASan red zones and poisoning switched on: an access to
+# arena memory that is not inside a live block is then reported by ASan even though it stays inside the arena
+POISON = ["-DMHD_ASAN_POISON_ACTIVE=1", "-DHAVE_SANITIZER_ASAN_INTERFACE_H=1", "-DFUNC_ATTR_NOSANITIZE_WORKS=1",
+          "-DHAVE___ASAN_REGION_IS_POISONED=1", "-DHAVE___ASAN_ADDRESS_IS_POISONED=1"]
+
+BEHS = ["", "f=r1", "u=3,0,all", "l=s1", "u=1", "f=s0", "ur=0:r1", "l=no", "f=no", "l=r2", "l=r2", "l=r2", "u=0,0,all l=r2",
+        "u=0,1,0,all", "f=r2"]
+RESP_KINDS = ["copy", "static", "cb-known", "cb-unknown", "cb-unknown", "iovec", "fd", "fdoff", "pipe", "empty", "freecb"]
 
 
-def make_case(name, mem, lvl, mode, data, pieces, beh, incr=None):
+def resp_line(rng, rid, mem):
+    kind = rng.choice(RESP_KINDS)
+    size = rng.choice([0, 1, 5, 100, mem // 2, mem - 100, mem, 3 * mem, 70000]) if kind != "empty" else 0
+    size = max(size, 0)
+    extra = ""
+    if kind.startswith("cb"):
+        extra = " cbmax=%d cbnr=%d" % (rng.choice([0, 0, 1, 7, 100, 1000]), rng.choice([0, 0, 1, 2]))
+    return "resp %d kind=%s code=200 size=%d%s" % (rid, kind, size, extra)
+
+
+def make_case(name, mem, lvl, mode, data, pieces, beh, incr=None, resp2=None):
     L = ["case " + name, "cfg mode=%s mem=%d lvl=%d suspend=1%s" % (mode, mem, lvl, (" incr=%d" % incr) if incr else ""),
-         "resp 1 kind=copy code=200 size=9", "start", "arrive 0 1", "arrive 1 2"]
+         "resp 1 kind=copy code=200 size=9", resp2 or "resp 2 kind=copy code=200 size=7", "start", "arrive 0 1", "arrive 1 2"]
     if beh:
         L.append("beh 0 0 " + beh)
     L.append("send 1 " + hx(GOOD))
@@ -126,8 +143,35 @@ def gen_cases(ctx, n_random):
                 if ctx.tier == "quick" and rng.random() < 0.5:
                     continue
                 cases.append((make_case("sz%d" % k, mem, lvl, rng.choice(["select", "epoll"]), data,
-                                        splits_of(data, how, rng, marks), rng.choice(BEHS)),
+                                        splits_of(data, how, rng, marks), rng.choice(BEHS), resp2=resp_line(rng, 2, mem)),
                               {"mem": mem, "total": total, "last": last, "how": how, "lvl": lvl}))
+                k += 1
+    # whitespace inside the request target (lenient levels redirect / accept it)
+    for lvl in range(-3, 4):
+        for runs in ([b" "], [b"  "], [b" \t "], [b"   ", b" "], [b"\t\t", b"  ", b" "], [b"     "]):
+            tgt = b"/a" + b"".join(r + b"b%d" % i for i, r in enumerate(runs))
+            data = b"GET " + tgt + b" HTTP/1.1\r\nHost: h\r\n\r\n" + rng.choice([b"", GOOD])
+            mem = rng.choice([512, 1024, 32768])
+            how = rng.choice(["whole", "bytes", "rand"])
+            cases.append((make_case("ws%d" % k, mem, lvl, rng.choice(["select", "epoll"]), data, splits_of(data, how, rng), ""),
+                          {"mem": mem, "kind": "ws-uri", "how": how, "lvl": lvl}))
+            k += 1
+    # lazily consumed upload followed by a large pipelined request (read buffer grows, then reset)
+    for mem in (1024, 2048, 4096, 8192):
+        for frac in (0.55, 0.7, 0.85):
+            for nxt in (0.4, 0.6, 0.75, 0.9):
+                body = int(mem * frac)
+                post = b"POST /u HTTP/1.1\r\nHost: h\r\nContent-Length: %d\r\n\r\n" % body + bytes((65 + i % 26) for i in range(body))
+                n2 = int(mem * nxt)
+                nextreq = b"GET /n HTTP/1.1\r\nHost: h\r\nX-Fill: " + b"f" * max(n2 - 40, 1) + b"\r\n\r\n"
+                if rng.random() < 0.4:
+                    nextreq = nextreq[:-rng.randint(1, 30)]      # incomplete
+                cutb = len(post) - rng.choice([1, 10, 100])
+                pieces = [post[:200], post[200:cutb], post[cutb:] + nextreq]
+                beh = rng.choice(["u=0,0,all l=r2", "u=0,1,0,0,all l=r2", "u=%d l=r2" % max(body - 10, 1), "u=0,0,0,0,all"])
+                cases.append((make_case("lz%d" % k, mem, rng.randint(-3, 3), rng.choice(["select", "epoll"]), post + nextreq, pieces, beh,
+                                        resp2=resp_line(rng, 2, mem)),
+                              {"mem": mem, "kind": "lazy-upload+pipeline", "how": "mark", "lvl": 0}))
                 k += 1
     # header-heavy, bodies, malformed
     for i in range(n_random):
@@ -152,7 +196,7 @@ def gen_cases(ctx, n_random):
             kind = "mutated"
         how = rng.choice(["whole", "rand", "rand"] + (["bytes"] if len(data) <= 200 else []))
         cases.append((make_case("rn%d" % i, mem, lvl, rng.choice(["select", "epoll"]), data, splits_of(data, how, rng),
-                                rng.choice(BEHS), incr=rng.choice([None, None, 64, 256])),
+                                rng.choice(BEHS), incr=rng.choice([None, None, 64, 256]), resp2=resp_line(rng, 2, mem)),
                       {"mem": mem, "kind": kind, "how": how, "lvl": lvl}))
     return cases
 
@@ -181,6 +225,9 @@ def judge(case_lines, meta, out_lines, err):
         m = re.search(r"(AddressSanitizer|UndefinedBehaviorSanitizer|runtime error|LeakSanitizer|Assertion|panic)[^\n]*", err)
         return "sanitizer", "daemon aborted: " + (m.group(0)[:160] if m else err[:200])
     conns, other = dlog.view(out_lines)
+    for l in other:
+        if "element-list-changed" in l:
+            return "oracle", "the request's element list was corrupted while the reply was produced: " + l[:120]
     for c, v in conns.items():
         # `unstable` lines (a string shown to the handler changed before completion) are C02/C05's
         # business, not a memory-safety violation: the arena memory is still owned by the connection.
@@ -234,6 +281,7 @@ class Spec:
 
     def build(self, ctx):
         self.h_daemon = vlib.build_daemon_harness()
+        self.h_poison = vlib.build_daemon_harness(name="h_daemon_poison", extra=POISON)
         self.h_mem = vlib.build_cached("h_mem", vlib.repo_sources() + [os.path.join(vlib.VERIF, "harness/h_mem.c")], self._build_mem)
         self.driver = vlib.driver_path("drv_mem")
 
@@ -253,11 +301,17 @@ class Spec:
         nrand = (6000 if ctx.tier == "thorough" else 700) * (3 if boost else 1)
         cases = gen_cases(ctx, nrand)
         res = run_cases(self.h_daemon, cases)
+        res_p = run_cases(self.h_poison, cases)
         dist = {}
         nontriv = set()
         for i, (lines, meta) in enumerate(cases):
             out, err = res.get(i, ([], "not run"))
             kind, det = judge(lines, meta, out, err if err != "" else "")
+            if not kind:
+                outp, errp = res_p.get(i, ([], "not run"))
+                kind, det = judge(lines, meta, outp, errp)
+                if kind:
+                    det = "[pool-poisoning build] " + det
             key = "%s/%s" % (meta.get("kind", "sized:" + meta.get("last", "")), meta["how"])
             dist[key] = dist.get(key, 0) + 1
             if any(l.startswith("handler") or l.startswith("wire c=0") for l in out):
@@ -270,7 +324,7 @@ class Spec:
                "rule": "daemon cases: distinct scripts in which the handler was called or the client got bytes; "
                        "buffer-layer sequences: distinct op scripts with >= 1 successful buffer operation",
                "samples": [cases[0][0], cases[len(cases) // 2][0][:12]],
-               "daemon_cases": len(cases), "daemon_case_distribution": dist,
+               "daemon_cases": len(cases), "daemon_builds": ["asan+ubsan", "asan+ubsan+pool red zones/poisoning"], "daemon_case_distribution": dist,
                "buffer_layer": cov_mem, "exhaustive": False}
         return failures, cov
 
